@@ -147,7 +147,7 @@ def explore(md, c, D, wrappers, depth, acc, sub):
 
 def bounds(tier):
     th = tier == "thorough"
-    return {"wrappers": WRAPPERS, "prefixes": PREF, "leaves": LEAF,
+    return {"wrappers": WRAPPERS, "separator_leaves": S.SEP_LEAVES, "prefixes": PREF, "leaves": LEAF,
             "K2_depth": 3 if th else 2, "K3": "full alphabet depth 1" if th else "reduced alphabet depth 1",
             "K1_depth": 4, "K1_depth6_wrappers": ["Q", "- ", "1. "] if th else None,
             "configs": [CM, CMT]}
@@ -164,6 +164,8 @@ def shards(tier):
             sh.append(("k1", 4, ci, f))
             if th:
                 sh.append(("k1deep", 6, ci, f))
+    for f in S.SEP_LEAVES:
+        sh.append(("ksep", f, 0))
     L3 = L if th else lines_of(PREF3, LEAF3)
     for f in L3:
         if th:
@@ -196,6 +198,16 @@ def run_shard(sh, acc):
         wr = WRAPPERS if kind == "k1" else ["Q", "- ", "1. "]
         explore(md, c, f + "\n", wr, depth, acc, kind)
         acc.sample(kind, {"cfg": c, "base": f + "\n", "depth": depth}, 1)
+    elif kind == "ksep":
+        # characters that are line boundaries for str.splitlines() but not for Markdown, inside and around blocks
+        _, f, ci = sh
+        c = _cfg(ci)
+        md = C.build(c)
+        for P in ("", "> ", "- "):
+            bases = [P + f + "\n"] + [P + f + "\n" + P + l + "\n" for l in LEAF3] + [P + l + "\n" + P + f + "\n" for l in LEAF3]
+            for D in bases:
+                explore(md, c, D, WRAPPERS, 2, acc, kind)
+        acc.sample(kind, {"cfg": c, "base": f + "\n", "depth": 2}, 1)
     elif kind == "k3":
         _, which, f, g, ci = sh
         c = _cfg(ci)
